@@ -56,6 +56,7 @@ class Cheats:
         self.fresh_log = []  # (k, kind, bits, raw value)
         self.nfresh = 0
         self.assumed_false = False
+        self.test_failed = False  # DSTest fail flag / failing vm.assert* seen
 
     # ---- prank
     def resolve_prank(self, evm, msg, to, caller, origin):
@@ -126,6 +127,17 @@ class Cheats:
         if to == refevm.CONSOLE:
             return True, b""
         s = int.from_bytes(data[:4], "big")
+        if to == refevm.HEVM:
+            # legacy DSTest.fail(): vm.store(HEVM, "failed", 1); and the two boolean asserts
+            if s == sel("store(address,bytes32,bytes32)") and word(data, 0) == refevm.HEVM:
+                self.test_failed = True
+                return True, b""
+            if s in (sel("assertTrue(bool)"), sel("assertTrue(bool,string)")):
+                self.test_failed |= word(data, 0) == 0
+                return True, b""
+            if s in (sel("assertFalse(bool)"), sel("assertFalse(bool,string)")):
+                self.test_failed |= word(data, 0) != 0
+                return True, b""
         table = VM_SEL if to == refevm.HEVM else SVM_SEL
         what = table.get(s)
         if what is None:
